@@ -321,6 +321,13 @@ func ReadJournal(path string) ([]byte, error) {
 // suspect and exits with code 97 (the driver re-runs the suspect alone).
 var WatchdogSeconds = 20
 
+func init() {
+	// the driver widens the limit when it runs a shard again after a suspect that was fine alone
+	if v, err := strconv.Atoi(os.Getenv("VERIF_WATCHDOG")); err == nil && v > 0 {
+		WatchdogSeconds = v
+	}
+}
+
 const ExitSuspect = 97
 
 // cpuTime is the CPU time (user + system) this process has used so far.
